@@ -67,6 +67,8 @@ def spec_tags(b):
             _, _, od, ou = T.REFS[rid][:4]
             if any(x and " " in x for x in (od, ou)):
                 tags.add("twoword_inline" if a["a"] == "opt" else "twoword_table")
+        if a["a"] == "opt" and a["o"]["g"] == "default" and a["o"]["v"] in T.DEFAULT_TAGS:
+            tags.add(T.DEFAULT_TAGS[a["o"]["v"]])
         eid = a["it"]["e"] if a["a"] == "item" else (a["o"]["v"] if a["a"] == "opt" and a["o"]["g"] == "check" else None)
         if eid in T.CHECK_TAGS and a["a"] == "item":
             tags.add(T.CHECK_TAGS[eid])
